@@ -60,9 +60,28 @@ SPEC = {
     # the calls LpSolveWrapper.cpp makes into lp_solve are recorded at link time (the library is not modified)
     'harness_flags': ['-Wl,--wrap=' + w for w in WRAPS],
     'classify_crash': classify_crash,
-    'level': 'translation_validation',
-    'timeout': {'quick': 600, 'thorough': 3000},
-    'rule': 'fixed witnesses first, then seeded random instances',
-    'modelled': [],
-    'assumptions': [],
+    'level': 'proof',
+    'timeout': {'quick': 900, 'thorough': 3000},
+    'rule': '7 fixed witness/regression cases (both degenerate FactoredLP shapes, the two-component MDP witnesses, a connected MDP, an lp_solve '
+            'accuracy-error replay), then seeded random cases, half FactoredLP / half factored-MDP LP: 1..4 (thorough 5) state factors of size 2..3 '
+            '(thorough 4), FactoredLP with 1..6 bases (indicator sets / random / wide tags up to 3, duplicate tags, tags shared with the target, '
+            'signed quarters / 0-1 patterns / indicators / non-dyadic values down to 1e-7), 1..3 target bases, optional constant basis; MDPs with '
+            '1..3 agents of 2..3 actions, disconnected / chain / random DDN structure with action-dependent parent sets, dyadic transition rows, '
+            '1..3 reward matrices (dense or half zero), bases = indicator sets / all-ones + random / random only, discounts 1/4, 1/2, 3/4, 7/8, 0.9. '
+            'Per case the driver solves the flat LP exactly (Bland simplex over Q, untrusted) and accepts its primal/dual pair only through '
+            'optimalPairB; verdict = weights flat-feasible within 1e-7, objective within 1e-7 of the certified optimum, Q = R + gamma P V within 1e-9, '
+            'and the LP handed to lp_solve equal to the Lean-generated LP (rows in order, columns, objective, bounds). '
+            'non-trivial = more than one joint state; distinct by protocol line',
+    'modelled': ['src/Factored/MDP/Algorithms/Utils/FactoredLP.cpp: operator() (both setup loops, column numbering, constant-basis spreading), all five Global callbacks',
+                 'src/Factored/MDP/Algorithms/LinearProgramming.cpp: solveLP (three setup loops with the zero skip, objective), all five Global callbacks; operator() only through its outputs (Q checked)',
+                 'include/AIToolbox/Factored/Utils/GenericVariableElimination.hpp: operator(), removeFactor in the branch without mergeFactors (append, sum every match)',
+                 'include/AIToolbox/Factored/Utils/FactorGraph.hpp: bestVariableToRemove / getFactor / erase as key-set bookkeeping (model shared with C13)',
+                 'src/Factored/Utils/BayesianNetwork.cpp: DDNGraph::getId, DDN::getTransitionProbability (flat P), backProject (executable model, diffed; = expectation decided per case)',
+                 'src/Utils/LP/LpSolveWrapper.cpp: only observed (calls into lp_solve recorded at link time); lp_solve itself untrusted, its answer certified'],
+    'assumptions': ['doubles read as exact rationals; generated-LP coefficients compared with relative 1e-12 (1/|C| and discount*g are rounded products)',
+                    'tags strictly ascending, in range, non-empty; one value per joint value of a tag (shape of BasisFunction / BasisMatrix)',
+                    'mdpLP theorems assume no basis/reward/back-projection entry in (0, 1e-6] (such entries are skipped by checkEqualSmall); the driver tags cases that violate it',
+                    'objective and feasibility tolerances 1e-7 (relative to 1+|value|); FactoredLP instances with coefficients below 1e-5 and a gap below 1e-5 are skipped as ill-conditioned (lp_solve accuracy 5e-7)',
+                    'flat infeasibility of an MDP LP (possible only when the bases do not span the constants) is not certified: such cases are skipped'],
+    'trusted_base': ['GNU ld --wrap interception of add_constraint / set_obj / set_obj_fn / set_minim / set_maxim / set_unbounded / solve'],
 }
